@@ -17,6 +17,15 @@
  *        (rin = rout = a*0x100, win = wout = b, as uint32: lets a case sit on the wrap-around)
  * out :  log: +R0 +W1 -R0 ... | words: rin rout win wout | steps: .. | spins: .. [<deadlock>]
  *        (+ = entered the critical section, - = about to leave it; R/W; thread id)      */
+#if defined(VERIF_RACE)
+/* race-exploration build (search only, not compared with the model): compiled by clang
+ * -fsanitize=thread and linked with tsanrt.c; EVERY access, plain or atomic, to the four lock words
+ * yields (so does every read of a wait loop), no macro interposition of the atomics. */
+extern void race_share(const void *p, unsigned long len); extern void race_reset(void);
+#include "cosched.h"
+#include <time.h>
+#include <stdint.h>
+#else
 #include "interpose.h"
 #include "cosched.h"
 #include <time.h>
@@ -31,6 +40,7 @@ static inline int32_t h_rw_fetch_and(volatile int32_t *l, int32_t v)
     return r;
 }
 #define parsec_atomic_fetch_and_int32(l,v) h_rw_fetch_and(l,v)
+#endif
 #define nanosleep(a,b) cos_spin()
 
 #include "parsec/class/parsec_rwlock.c"
@@ -97,6 +107,9 @@ int main(int argc, char **argv)
         L.rin = L.rout = (int32_t)((uint32_t)ab[0] * 0x100u);
         L.win = L.wout = (int32_t)(uint32_t)ab[1];
         nev = 0;
+#if defined(VERIF_RACE)
+        race_reset(); race_share((const void *)&L, sizeof(L));
+#endif
         cos_reset();
         for (int t = 0; t < nt; t++) cos_spawn(worker, (void *)(intptr_t)t);
         int dl = cos_run(sched, ns, 1000);
